@@ -7,6 +7,8 @@ import (
 	"errors"
 	"fmt"
 	"io/fs"
+	"os"
+	"sort"
 	"strings"
 	"testing/fstest"
 	"time"
@@ -32,7 +34,10 @@ silent :- silent.
 deep(N) :- put_char(a), M is N + 1, deep(M), put_char(z).
 `
 
-type c13Loop struct{ Name, Goal string; Silent bool }
+type c13Loop struct {
+	Name, Goal string
+	Silent     bool
+}
 
 var c13Loops = []c13Loop{
 	{"repeat-fail", "(repeat, put_char(a), fail)", false},
@@ -278,6 +283,159 @@ func c13BetweenRun(c *c13BetweenCase) (exp, act string, ok bool) {
 	return exp, "as expected", true
 }
 
+// ---- cancellation at the k-th POLL: a deterministic seam for goals that write nothing ----------------------
+// The context handed to QueryContext counts how often the engine looks at it (Done/Err) and cancels its parent at the
+// k-th look: every instant at which a cancellation can take effect is enumerated, for goals that deliver answers.
+// Oracle: the answers delivered are a prefix of the answers of the uncancelled run, each exactly equal to it (a
+// cut-off sort, grouping or collection must never be handed out), and fewer answers come with the context's error.
+
+type c13PollCtx struct {
+	context.Context
+	cancel func()
+	n, k   int
+}
+
+func (p *c13PollCtx) look() {
+	p.n++
+	if p.n == p.k {
+		p.cancel()
+	}
+}
+func (p *c13PollCtx) Done() <-chan struct{} { p.look(); return p.Context.Done() }
+func (p *c13PollCtx) Err() error            { p.look(); return p.Context.Err() }
+
+type c13PollCase struct {
+	Poll  bool   `json:"poll_instant"`
+	Query string `json:"query"`
+	K     int    `json:"k"`
+}
+
+var c13PollGoals = []string{
+	"setof(X, Y^(between(1, 3000, Y), X is (Y * 7919) mod 3001), L).", // a permutation: the sort has real work to do
+	"setof(X, Y^(between(1, 3000, Y), X is 3001 - Y), L).",
+	"bagof(X-Y, (member(Y, [c, a, b, a]), between(1, 400, I), X is 401 - I), L).",
+	"findall(X, (between(1, 3000, Y), X is (Y * 7919) mod 3001), L0), sort(L0, L).",
+	"findall(K-V, (between(1, 2500, V), K is (V * 31) mod 97), L0), keysort(L0, L).",
+	"findall(X, between(1, 2000, X), L), length(L, N).",
+	"setof(K-Vs, setof(V, I^(between(1, 600, I), V is (I * 31) mod 7, K is (I * 17) mod 5), Vs), L).",
+	"member(X, [1, 2, 3]), findall(Y, between(1, 300, Y), L).",
+	"length(L, 1500), findall(E, member(E, L), L2), length(L2, N).",
+	"catch(findall(X, between(1, 1000, X), L), _, true).",
+	"\\+ \\+ findall(X, between(1, 1000, X), _), X = done.",
+}
+
+func c13PollRun(c *c13PollCase, baseline *[]string, polls *int) (exp, act string, ok bool) {
+	run := func(k int) (answers []string, err error, n int) {
+		p := prolog.New(strings.NewReader(""), &bytes.Buffer{})
+		parent, cancel := context.WithCancel(context.Background())
+		defer cancel()
+		ctx := &c13PollCtx{Context: parent, cancel: cancel, k: k}
+		sols, qerr := p.QueryContext(ctx, c.Query)
+		if qerr != nil {
+			return nil, qerr, 0
+		}
+		for sols.Next() && len(answers) < 10 {
+			m := map[string]prolog.TermString{}
+			if e := sols.Scan(m); e != nil {
+				answers = append(answers, "scan error: "+e.Error())
+				continue
+			}
+			answers = append(answers, varNumRe2.ReplaceAllString(fmt.Sprint(m), "_"))
+		}
+		err = sols.Err()
+		sols.Close()
+		return answers, err, ctx.n
+	}
+	if *baseline == nil {
+		b, err, n := run(0)
+		if err != nil {
+			return "the uncancelled run succeeds", err.Error(), false
+		}
+		*baseline, *polls = b, n
+	}
+	if c.K == 0 {
+		return "", "baseline", true
+	}
+	got, err, _ := run(c.K)
+	exp = fmt.Sprintf("a prefix of the %d answers of the uncancelled run, each exactly as there; the context's error if fewer", len(*baseline))
+	for i, a := range got {
+		if i >= len(*baseline) || a != (*baseline)[i] {
+			d := a
+			if len(d) > 300 {
+				d = d[:300] + "…"
+			}
+			return exp, fmt.Sprintf("answer %d differs from the uncancelled run's: %s", i+1, d), false
+		}
+	}
+	if len(got) < len(*baseline) && !errors.Is(err, context.Canceled) {
+		return exp, fmt.Sprintf("%d answers and Err() = %v", len(got), err), false
+	}
+	if len(got) == len(*baseline) && err != nil && !errors.Is(err, context.Canceled) {
+		return exp, fmt.Sprintf("all answers, then Err() = %v", err), false
+	}
+	return exp, "as expected", true
+}
+
+func c13PollWork(w *h.W) {
+	for _, q := range c13PollGoals {
+		// every worker runs the uncancelled baseline of every goal itself (one run) and takes its share of the instants
+		var baseline []string
+		polls := 0
+		if _, act, ok := c13PollRun(&c13PollCase{Poll: true, Query: q}, &baseline, &polls); !ok {
+			w.Violation("cancel at the k-th poll: the uncancelled run fails", &c13PollCase{Poll: true, Query: q}, "succeeds", act, 1)
+			continue
+		}
+		// every instant up to 300, then a geometric-arithmetic mix up to the last poll of the run (quick: ~600 instants per goal)
+		var ks []int
+		step := 1
+		for k := 1; k <= polls+2; k += step {
+			ks = append(ks, k)
+			if k > w.Pick(150, 300) {
+				step = 1 + polls/w.Pick(150, 3000)
+			}
+			if k+step > polls-w.Pick(250, 400) {
+				step = 1 // the collecting, sorting and grouping steps come last: every instant of the last 400 polls
+			}
+		}
+		// the last instants first (should the deadline pass, the early ones are the ones given up)
+		sort.Slice(ks, func(i, j int) bool {
+			ti, tj := ks[i] > polls-w.Pick(250, 400), ks[j] > polls-w.Pick(250, 400)
+			if ti != tj {
+				return ti
+			}
+			return ks[i] < ks[j]
+		})
+		for _, k := range ks {
+			if !w.Mine() {
+				continue
+			}
+			if w.Expired() {
+				return
+			}
+			c := &c13PollCase{Poll: true, Query: q, K: k}
+			w.GuardFor(c, 2*time.Minute)
+			exp, act, ok := c13PollRun(c, &baseline, &polls)
+			w.Unguard()
+			w.Eval(1)
+			w.States(1)
+			w.Transitions(1)
+			w.Traces(1)
+			w.Nontrivial(fmt.Sprint("poll:", q, k))
+			w.Outcome("poll-instant")
+			if !ok {
+				what := digitsRe.ReplaceAllString(act, "N")
+				if len(what) > 50 {
+					what = what[:50]
+				}
+				w.Violation("cancel at the k-th poll: "+what, c, exp, act, k)
+			}
+		}
+		if w.Shard == 0 {
+			w.Extra("polls_of_"+strings.SplitN(q, "(", 2)[0], int64(polls))
+		}
+	}
+}
+
 // ---- long single steps: work that happens inside ONE built-in call (no goal is executed meanwhile) --------
 
 type c13StepCase struct {
@@ -416,8 +574,17 @@ func c13Answers(p *prolog.Interpreter, q string) string {
 var varNumRe2 = digitsAfterUnderscore()
 
 func c13Work(w *h.W) {
+	t0 := time.Now()
 	c13BetweenWork(w)
+	w.Extra("ms_between", time.Since(t0).Milliseconds())
+	t0 = time.Now()
+	c13PollWork(w)
+	w.Extra("ms_poll", time.Since(t0).Milliseconds())
+	t0 = time.Now()
 	c13StepWork(w)
+	w.Extra("ms_step", time.Since(t0).Milliseconds())
+	t0 = time.Now()
+	defer func() { w.Extra("ms_main", time.Since(t0).Milliseconds()) }()
 	maxK := w.Pick(12, 60)
 	var wraps [][]int
 	for i := range c13Wrappers {
@@ -515,6 +682,16 @@ func c13Replay(b []byte) (string, string, bool) {
 	if json.Unmarshal(b, &bc) == nil && bc.Between {
 		return c13BetweenRun(&bc)
 	}
+	var pc c13PollCase
+	if json.Unmarshal(b, &pc) == nil && pc.Poll {
+		var baseline []string
+		polls := 0
+		e, a, ok := c13PollRun(&pc, &baseline, &polls)
+		if os.Getenv("C13_DEBUG") != "" {
+			fmt.Fprintf(os.Stderr, "debug: polls of the uncancelled run = %d, baseline answers = %d\n", polls, len(baseline))
+		}
+		return e, a, ok
+	}
 	var sc c13StepCase
 	if json.Unmarshal(b, &sc) == nil && sc.Step {
 		return c13StepRun(&sc)
@@ -528,12 +705,12 @@ func c13Replay(b []byte) (string, string, bool) {
 
 func init() {
 	h.Register(&h.Check{
-		ID: "C13",
-		Rule: "all (loop, wrapper, position, cancellation instant) combinations: 13 loops (repeat-driven with a Prolog and with a Go built-in failing, direct / mutual / non-tail recursion, between/3, length/2, retract/assertz ping-pong, and 5 loops that write nothing) x wrappers {none, findall, bagof, setof, \\+, \\+\\+, catch with true / with the loop again as recovery, call, once, ;, ->} nested to depth 1 (quick: plus 7 depth-2 nestings; thorough: all depth-2 nestings) x positions {query, second answer of a query, directive of an Exec text, initialization/1 goal, body of a user term_expansion/2 during Exec, file consulted through Interpreter.FS by consult/1 and by an ensure_loaded/1 directive - after which the same file must be loadable} x cancellation instant k = 0 (already cancelled) .. K where the real cancel() is called by the output writer when the k-th byte arrives (every loop writes a byte before each goal, so k enumerates every phase of every iteration) plus the deep instants k = 300, 3000, 12000 (thorough: 1000, 5000, 40000 too) at which the machine's stacks hold thousands of entries; silent loops are cancelled from a timer at several delays; cancellation BETWEEN two answers: 10 generators x after 0..3 delivered answers x {cancel, deadline}: the next Next returns false and Err is the context's error; long single steps: 7 goals whose work happens inside one built-in call (bagof/setof grouping of 60000 witnesses, sort/keysort/findall/length over 300000..600000 elements) cancelled 20, 200, 1000 ms in: the call returns within 20 s of cancel(). Distinct = (goal, position, k).",
-		Explanation: "state = a fresh real interpreter with the loop program; transition = the pending QueryContext/Next or ExecContext call, which must return the context's error; at most 64 bytes may reach the writer after cancel() returned (a step bound, not a clock); immediately afterwards eight follow-up queries (failing, single-answer, enumerated to exhaustion, erroneous) must answer as on a fresh interpreter; a call that has not returned after the 60 s horizon is reported by the worker's watchdog ('does not return')",
-		Assumptions: []string{"the implementation can observe a cancellation only at a poll, so instants fall into classes 'first poll that sees it'; the byte-triggered seam lands in every class of the loops that write", "the 60 s horizon is not a latency oracle (expected: microseconds)"},
-		Work:        c13Work,
-		Replay:      c13Replay,
+		ID:            "C13",
+		Rule:          "all (loop, wrapper, position, cancellation instant) combinations: 13 loops (repeat-driven with a Prolog and with a Go built-in failing, direct / mutual / non-tail recursion, between/3, length/2, retract/assertz ping-pong, and 5 loops that write nothing) x wrappers {none, findall, bagof, setof, \\+, \\+\\+, catch with true / with the loop again as recovery, call, once, ;, ->} nested to depth 1 (quick: plus 7 depth-2 nestings; thorough: all depth-2 nestings) x positions {query, second answer of a query, directive of an Exec text, initialization/1 goal, body of a user term_expansion/2 during Exec, file consulted through Interpreter.FS by consult/1 and by an ensure_loaded/1 directive - after which the same file must be loadable} x cancellation instant k = 0 (already cancelled) .. K where the real cancel() is called by the output writer when the k-th byte arrives (every loop writes a byte before each goal, so k enumerates every phase of every iteration) plus the deep instants k = 300, 3000, 12000 (thorough: 1000, 5000, 40000 too) at which the machine's stacks hold thousands of entries; silent loops are cancelled from a timer at several delays; cancellation BETWEEN two answers: 10 generators x after 0..3 delivered answers x {cancel, deadline}: the next Next returns false and Err is the context's error; cancellation at the k-th POLL: the context counts how often the engine looks at it and cancels at the k-th look - for 11 goals that deliver answers (setof/bagof/sort/keysort/findall/length of thousands of elements, nested, under catch and \\+) every k <= 150 (300), ~150 (3000) further instants and every one of the last 250 (400) polls: the answers delivered are a prefix of the uncancelled run's, each exactly equal, fewer only with the context's error; long single steps: 7 goals whose work happens inside one built-in call (bagof/setof grouping of 60000 witnesses, sort/keysort/findall/length over 300000..600000 elements) cancelled 20, 200, 1000 ms in: the call returns within 20 s of cancel(). Distinct = (goal, position, k).",
+		Explanation:   "state = a fresh real interpreter with the loop program; transition = the pending QueryContext/Next or ExecContext call, which must return the context's error; at most 64 bytes may reach the writer after cancel() returned (a step bound, not a clock); immediately afterwards eight follow-up queries (failing, single-answer, enumerated to exhaustion, erroneous) must answer as on a fresh interpreter; a call that has not returned after the 60 s horizon is reported by the worker's watchdog ('does not return')",
+		Assumptions:   []string{"the implementation can observe a cancellation only at a poll, so instants fall into classes 'first poll that sees it'; the byte-triggered seam lands in every class of the loops that write", "the 60 s horizon is not a latency oracle (expected: microseconds)"},
+		Work:          c13Work,
+		Replay:        c13Replay,
 		QuickDeadline: 170 * time.Second, ThoroughDeadline: 30 * time.Minute,
 	})
 }
